@@ -802,6 +802,16 @@ static ares_status_t process_answer(ares_channel_t      *channel,
     goto cleanup;
   }
 
+  /* The reply must arrive on the connection the query is currently outstanding
+   * on.  A reply on any other connection is stale (the query has since been
+   * re-sent elsewhere), and while the query is waiting in the requeue list it
+   * isn't attached to a connection at all: processing duplicates received in
+   * the same read would schedule one more re-send for each of them. */
+  if (query->conn != conn) {
+    status = ARES_SUCCESS;
+    goto cleanup;
+  }
+
   /* Validate DNS cookie in response. This function may need to requeue the
    * query. */
   if (ares_cookie_validate(query, rdnsrec, conn, now, requeue)
